@@ -1,20 +1,25 @@
 #!/bin/bash
 # usage: tools/mut.sh <name> <prop[,prop]> <file-in-repo> <sed-expr> [tier]
-# Applies a one-line mutation to /repo, stores the diff as mutants/<name>.patch, runs the property's check
-# against the mutated tree, restores /repo. Prints DETECTED/MISSED.
+# Applies a one-line mutation to a scratch worktree of /repo, stores the diff as mutants/<name>.patch,
+# checks that it compiles and that the existing suite still passes, runs the property's check against
+# the mutated tree (driver --repo), removes the worktree. Prints DETECTED/MISSED.
 name=$1; props=$2; file=$3; expr=$4; tier=${5:-quick}
-cd /repo || exit 2
-git diff --quiet || { echo "/repo dirty"; exit 2; }
+wt=/tmp/mut-$name-$$
+git -C /repo worktree add --detach $wt HEAD -q || exit 2
+trap 'git -C /repo worktree remove --force '$wt'; rm -rf /verif/.build/*$(echo -n '$wt' | sha1sum | cut -c1-10)* /verif/.work/alt.$(echo -n '$wt' | sha1sum | cut -c1-10)' EXIT
+cd $wt
 sed -i -E "$expr" "$file"
 if git diff --quiet; then echo "$name: sed changed nothing"; exit 2; fi
 git diff > /verif/mutants/$name.patch
-if ! go build ./... 2>/tmp/mut.build.log; then echo "$name: does not compile"; cat /tmp/mut.build.log | head; git checkout -- .; rm /verif/mutants/$name.patch; exit 2; fi
+if ! go build ./... 2>/tmp/mut.$$.log; then echo "$name: does not compile"; head /tmp/mut.$$.log; rm /verif/mutants/$name.patch; exit 2; fi
 base=$(go test -vet=off -count=1 ./openflow13 ./protocol 2>&1 | grep -c '^ok')
+if [ "$base" != 2 ]; then echo "$name: INVALID (existing suite fails with it)"; rm /verif/mutants/$name.patch; exit 2; fi
 res=""
 for p in ${props//,/ }; do
-  (cd /verif && ./verif check $p --tier $tier --no-evidence >/tmp/mut.$p.log 2>&1); rc=$?
+  (cd /verif && ./verif check $p --tier $tier --no-evidence --repo $wt >/tmp/mut.$$.$p.log 2>&1); rc=$?
   res="$res $p=$rc"
+  sig=$(grep -m1 'sig=' /tmp/mut.$$.$p.log | cut -c1-160)
 done
-git checkout -- .
-echo "{\"properties\": [\"${props//,/\",\"}\"], \"tier\": \"$tier\", \"baseline_ok_pkgs\": $base}" > /verif/mutants/$name.json
-case "$res" in *=1*) echo "$name: DETECTED ($res) baseline_ok=$base/2";; *) echo "$name: MISSED ($res) baseline_ok=$base/2";; esac
+echo "{\"properties\": [\"${props//,/\",\"}\"], \"tier\": \"$tier\"}" > /verif/mutants/$name.json
+case "$res" in *=1*) echo "$name: DETECTED ($res) $sig";; *) echo "$name: MISSED ($res)";; esac
+rm -f /tmp/mut.$$.*
